@@ -289,6 +289,8 @@ func (r *Runner) doBegin(tid int, op string, kv map[string]string) {
 		for _, pi := range parseInts(kv["req"]) {
 			if pi >= 0 && pi < len(e.Pools) {
 				req = append(req, cnet.MustParseCIDR(e.Pools[pi].Spec.CIDR))
+			} else {
+				req = append(req, cnet.MustParseCIDR("192.168.77.0/24")) // a pool that does not exist
 			}
 		}
 		fn = func(c bapi.Client) *OpResult {
